@@ -40,7 +40,8 @@ def prepare_native_units(scr, units, repo, contracts):
     return by_crate, infos, und
 
 
-LINE_RE = re.compile(r'^VERIF-N (.*)$', re.M)
+# not anchored at the line start: with --nocapture the libtest harness may have printed `test <name> ... ` on the same line
+LINE_RE = re.compile(r'VERIF-N (id=.*)$', re.M)
 
 
 def parse_kv(s):
